@@ -591,7 +591,7 @@ def run_c03(ctx):
         cs.append({"id": "deep-%03d" % i, "pre": pre, "acts": [{"a": "parse", "text": "( " * n + "1 " + ") " * n}]})
         cs.append({"id": "deepopen-%03d" % i, "pre": pre, "acts": [{"a": "parse", "text": "( " * n + "1 "}]})
         cs.append({"id": "longtok-%03d" % i, "pre": pre, "acts": [{"a": "parse", "text": "x" * (n * 10) + " INT[" + "1," * n + "1] " + "9" * n}]})
-    for i, n in enumerate([2000] if q else [2000, 10000, 100000]):
+    for i, n in enumerate([2000] if q else [2000, 10000, 20000]):
         pre = dict(base); pre["exec"] = []
         cs.append({"id": "verydeep-%03d" % i, "pre": pre, "acts": [{"a": "parse_summary", "text": "( " * n + "1 " + ") " * (n // 2)}]})
         cs.append({"id": "verylong-%03d" % i, "pre": pre, "acts": [{"a": "parse_summary", "text": "INT[" + "7," * n + "7] " + "y" * n + " " + ") " * 5 + "\u00e9" * n + "]"}]})
@@ -600,7 +600,7 @@ def run_c03(ctx):
 
 def run_c11(ctx):
     q = ctx.tier == "quick"
-    cases = parser_model(ctx, 1, 5 if q else 7)
+    cases = parser_model(ctx, 1, 5 if q else 6)
     cs = []
     for i, c in enumerate(cases):
         if "tree" not in c:
